@@ -114,14 +114,15 @@ class C14(ProtoSpec):
             binds = [[(X, "A")], [(X, "A"), (X, "B")], [(X, "A"), (X, "B"), (X, "C")]]
             self.driver = Driver(binds, names=("1",), mids=("m",), msgs=(("p", "00", "i1"),),
                                  kinds=("bind", "claim", "release", "open", "add", "close"),
-                                 release_forms=("bare",), close_forms=("bare", "unopened"), moods=("happy",), max_adds=1)
+                                 release_forms=("bare",), close_forms=("bare", "unopened"), moods=("happy",), max_adds=1,
+                                 ticks=(10.25,), max_ticks=1)
             self.depth = 7
         else:
             binds = [[(X, "A")], [(X, "A"), (X, "B")], [(X, "A"), (X, "B"), (X, "C")], [(X, "A"), (X, "B"), (X, "C")]]
             self.driver = Driver(binds, names=("1", "2"), mids=("m",), msgs=(("p", "00", "i1"),),
                                  kinds=("bind", "claim", "release", "open", "add", "close", "drop", "list"),
                                  release_forms=("bare",), close_forms=("bare", "unopened"), moods=("happy", None),
-                                 max_adds=2, max_drops=1)
+                                 max_adds=2, max_drops=1, ticks=(10.25, 300.0), max_ticks=2)
             self.depth = 9
 
     def __init__(self, tier="quick"):
